@@ -473,6 +473,13 @@ def run_case(case, root):
                                  "nth": r3.randrange(nw),
                                  "err": r3.choice(["TYPE", "ATTR", "RUNTIME",
                                                    "VALUE", "PIPE"])}])
+            if static["base_steps"] > 12000 or nw > 150:
+                # a nest this expensive (deep recursion x loops) gets a
+                # sample of the positions instead of all of them, so that
+                # one case cannot eat the budget of the batch
+                probes["expensive_nest_sampled"] = 1
+                r4 = random.Random(int(shape, 16) + 2)
+                singles = r4.sample(singles, min(len(singles), 12))
             for plan in singles:
                 if not one(idx, plan):
                     ok = False
